@@ -80,8 +80,9 @@ CHECKS = {
              "confirmed or unconfirmed transaction spends it) and one debit with the credit's amount per input spending a wallet credit; UniqueTxDetails at "
              "its current incidence agrees; the unconfirmed hash list is the ledger's unconfirmed set. Tie to the code: TxDetails/UniqueTxDetails for every "
              "universe tx and RangeTransactions over nine (begin,end) pairs in both directions after every event, vs model and vs spec_details.",
-        note="PARTIAL: range iteration (each known transaction exactly once under its current block, forwards and backwards) is in the model and in the "
-             "differential run but not yet a closed theorem. Model coq/Tx/Store.v transcribes wtxmgr bucket for bucket (10 buckets, InsertTx/AddCredit/Rollback/removeConflict/Balance/fetchCredits/leases/TxDetails/RangeTransactions); hypotheses: wf_universe (ids, positive amounts, duplicate-free inputs, inputs name existing outputs, acyclic by rank) and chain_consistent (decidable, Tx/Hist.v: what a validating node can emit - re-deliveries and unconfirmed conflicts allowed). Trusted: Coq kernel+vm_compute, the hand-written model (tied by the differential run after EVERY event), generator, bbolt. Integer wrap-around outside the model (amounts < 2^53, heights < 2^20 generated). Late discovery of credits not generated. No axioms (Print Assumptions closed)."),
+        note="Range iteration is proved too (C13_range_iteration_equals_ledger: groups per confirmed height in range, ascending or descending, each known "
+             "transaction exactly once, removed ones never, backward = reverse of forward; full iteration needs confirmed heights < 2^31 for the -1 convention) "
+             "and the harness oracle compares every range query with the ledger's prediction. Model coq/Tx/Store.v transcribes wtxmgr bucket for bucket (10 buckets, InsertTx/AddCredit/Rollback/removeConflict/Balance/fetchCredits/leases/TxDetails/RangeTransactions); hypotheses: wf_universe (ids, positive amounts, duplicate-free inputs, inputs name existing outputs, acyclic by rank) and chain_consistent (decidable, Tx/Hist.v: what a validating node can emit - re-deliveries and unconfirmed conflicts allowed). Trusted: Coq kernel+vm_compute, the hand-written model (tied by the differential run after EVERY event), generator, bbolt. Integer wrap-around outside the model (amounts < 2^53, heights < 2^20 generated). Late discovery of credits not generated. No axioms (Print Assumptions closed)."),
     "C14": dict(
         text="Theorem C14_dependency_sort (unbounded, Kahn invariant): for every finite set of transactions with distinct ids whose in-set spend relation is "
              "acyclic (rank function; C14_acyclic_iff_no_cycle proves this equivalent to 'no cycle') and every pair of map iteration orders (any permutation "
